@@ -328,8 +328,19 @@ class Engine:
             bb = self._blast(fr[1], pats)
             if bb is not None:
                 return bb
-            key = f"case#{fr[1]}(" + ", ".join(ir.show(p) for p in pats) + ")"
-            self.atom_ir[key] = ('caseatom', fr[1], pats)
+            # Switches on the same subject share the atoms of their value patterns (an integer, an enum member, a loop
+            # index): "the subject equals the pattern" does not depend on which Switch asks.  Bit patterns with
+            # don't-cares can overlap, so there "this Case is taken" depends on the other Cases: kept per Switch.
+            t = self.w.t
+            subj = self.norm(t.switches[fr[1]]) if t is not None and fr[1] in t.switches else None
+            shared = subj is not None and pats and all(
+                p[0] in ('idx', 'enum') or (p[0] == 'const' and isinstance(p[1], int) and not isinstance(p[1], bool)) for p in pats)
+            if shared:
+                key = f"case[{ir.show(subj)}](" + ", ".join(ir.show(p) for p in pats) + ")"
+                self.atom_ir[key] = ('caseatom', ('subj', ir.show(subj)), pats)
+            else:
+                key = f"case#{fr[1]}(" + ", ".join(ir.show(p) for p in pats) + ")"
+                self.atom_ir[key] = ('caseatom', fr[1], pats)
             return ('atom', key)
         if k == 'default':
             t = self.w.t
@@ -464,8 +475,19 @@ class Engine:
             e = self.atom_ir.get(a)
             if e is None:
                 continue
-            if e[0] == 'caseatom' or e[0] == 'defaultatom':
+            if e[0] == 'caseatom':
                 groups.setdefault(('sw', e[1]), []).append(a)
+            elif e[0] == 'defaultatom':
+                groups.setdefault(('sw', e[1]), []).append(a)
+                # the Default of a Switch is also exclusive with the shared (subject-keyed) atoms of that Switch's own patterns
+                t = self.w.t
+                if t is not None and e[1] in t.switches:
+                    sk = ('subj', ir.show(self.norm(t.switches[e[1]])))
+                    own = {tuple(self.norm(p) for p in pats) for pats in t.switch_cases.get(e[1], ())}
+                    for b in atoms:
+                        eb = self.atom_ir.get(b)
+                        if eb is not None and eb[0] == 'caseatom' and eb[1] == sk and tuple(eb[2]) in own:
+                            groups.setdefault(('dflt', e[1]), [a]).append(b)
             elif e[0] == 'cmp' and e[1] == '==':
                 lhs, rhs = e[2], e[3]
                 if rhs[0] in ('const', 'enum') and lhs[0] not in ('const', 'enum'):
